@@ -249,27 +249,31 @@ Section Proofs.
   Qed.
 
   (* The statement in the property's own words. *)
-  Theorem window_theorem d ops :
+  Theorem window_theorem d ops s0 :
     1 <= d -> Forall (disciplined d) ops ->
+    (s0 = None \/ s0 = Some []) ->
     let h := hrun [] ops in
     (forall i, i < d ->
-       match fst (run vadd None ops) with
+       match fst (run vadd s0 ops) with
        | None => h = []
        | Some dct => lookup dct i = nth_error h i
        end) /\
     (forall i, d <= i ->
-       match fst (run vadd None ops) with
+       match fst (run vadd s0 ops) with
        | None => True | Some dct => lookup dct i = None end) /\
-    snd (run vadd None ops) = houts d [] ops.
+    snd (run vadd s0 ops) = houts d [] ops.
   Proof.
-    intros Hd Hall h.
-    destruct (run_refines d Hd ops None [] eq_refl Hall) as [HR Hout].
+    intros Hd Hall Hs0 h.
+    assert (HR0 : R d s0 []).
+    { destruct Hs0 as [-> | ->]; cbn [R]; [reflexivity|].
+      intros i. rewrite lookup_nil, firstn_nil. destruct i; reflexivity. }
+    destruct (run_refines d Hd ops s0 [] HR0 Hall) as [HR Hout].
     fold h in HR. unfold R in HR. split; [|split].
-    - intros i Hi. destruct (fst (run vadd None ops)) as [dct|] eqn:E; cbn beta iota in HR.
+    - intros i Hi. destruct (fst (run vadd s0 ops)) as [dct|] eqn:E; cbn beta iota in HR.
       + rewrite HR, nth_error_firstn_if.
         replace (i <? d) with true by (symmetry; apply Nat.ltb_lt; lia). reflexivity.
       + exact HR.
-    - intros i Hi. destruct (fst (run vadd None ops)) as [dct|] eqn:E; [|exact I]. cbn beta iota in HR.
+    - intros i Hi. destruct (fst (run vadd s0 ops)) as [dct|] eqn:E; [|exact I]. cbn beta iota in HR.
       rewrite HR, nth_error_firstn_if.
       replace (i <? d) with false by (symmetry; apply Nat.ltb_ge; lia). reflexivity.
     - exact Hout.
